@@ -175,26 +175,39 @@ func rtInput(target, cur string, l core.BuildLabel, r rtResult) map[string]any {
 	return map[string]any{"target": target, "current_path": cur, "label": js(l), "printed": r.printed, "reparsed": r.re}
 }
 
+// flush(false) is called after every cheap case: every 8th call emits one pending enumeration group.
+var flush = func(all bool) {}
+
 type enumStats struct{ strings, accepted, failing int }
 
 // enumGroup enumerates prefix++w, |w| <= depth, in pre-order through the real parser.
-func enumGroup(c *lib.Ctx, prefix string, depth int, cur string, st *enumStats, labels map[core.BuildLabel]bool) {
+// With explicit the model is compared entry by entry; otherwise by (count, 60-bit digest of the encoded entries).
+// Oracle and statistics are only evaluated when st != nil (a string is round-tripped once, not once per grouping).
+func enumGroup(c *lib.Ctx, prefix string, depth int, cur string, explicit bool, st *enumStats, labels map[core.BuildLabel]bool) func() {
 	var blob strings.Builder
+	items := []string{}
 	nitems := 0
 	var rec func(x []byte, d int)
 	rec = func(x []byte, d int) {
 		t := string(x)
-		st.strings++
+		if st != nil {
+			st.strings++
+		}
 		if l, err := core.TryParseBuildLabel(t, cur, ""); err == nil {
-			st.accepted++
+			if explicit {
+				items = append(items, lib.Pair(lib.Str(t), coqLabel(l)))
+			}
 			// one entry of Model/C20.v encode_accepted; neither separator is in the alphabet or in cur
 			blob.WriteString(t + " " + l.PackageName + " " + l.Name + " " + l.Subrepo + "|")
 			nitems++
-			labels[l] = true
-			c.Oracle()
-			if r := roundTrip(t, cur, l); !r.ok {
-				st.failing++
-				c.Fail(r.class, r.what, rtInput(t, cur, l, r))
+			if st != nil {
+				st.accepted++
+				labels[l] = true
+				c.Oracle()
+				if r := roundTrip(t, cur, l); !r.ok {
+					st.failing++
+					c.Fail(r.class, r.what, rtInput(t, cur, l, r))
+				}
 			}
 		}
 		if d == 0 {
@@ -205,10 +218,21 @@ func enumGroup(c *lib.Ctx, prefix string, depth int, cur string, st *enumStats, 
 		}
 	}
 	rec([]byte(prefix), depth)
-	c.Case(lib.App("CEnum", lib.Str(alphabet), lib.Nat(depth), lib.Str(prefix), lib.Str(cur), lib.Str(blob.String())),
-		map[string]any{"kind": "enum", "prefix": prefix, "depth": depth, "current_path": cur, "accepted": nitems},
-		"enum "+prefix, nitems > 0)
+	injs := map[string]any{"kind": "enum", "prefix": prefix, "depth": depth, "current_path": cur, "accepted": nitems}
+	if explicit {
+		return func() {
+			c.Case(lib.App("CEnum", lib.Str(alphabet), lib.Nat(depth), lib.Str(prefix), lib.Str(cur), lib.List(items)), injs, "enum "+prefix, nitems > 0)
+		}
+	}
+	var h uint64
+	for _, b := range []byte(blob.String()) {
+		h = ((h << 8) + h + uint64(b) + 1) & (1<<60 - 1) // Model/C20.v digest_step
+	}
+	injs["digest"] = h
 	c.HistN("enum_accepted_per_group_log2", log2(nitems))
+	return func() {
+		c.Case(lib.App("CEnumDigest", lib.Str(alphabet), lib.Nat(depth), lib.Str(prefix), lib.Str(cur), lib.Nat(nitems), lib.N(h)), injs, "enumd "+prefix, nitems > 0)
+	}
 }
 
 func log2(n int) int {
@@ -321,6 +345,7 @@ func genLabelString(r *lib.Rng) string {
 }
 
 func parseCase(c *lib.Ctx, target, cur, sub string, labels map[core.BuildLabel]bool) {
+	defer flush(false)
 	l, err := core.TryParseBuildLabel(target, cur, sub)
 	in := map[string]any{"kind": "parse", "target": target, "current_path": cur, "subrepo_arg": sub}
 	if err == nil {
@@ -430,6 +455,7 @@ func genOthers(r *lib.Rng, tree []string) []core.BuildLabel {
 }
 
 func selectCase(c *lib.Ctx, pats, others []core.BuildLabel) {
+	defer flush(false)
 	incRows, matRows := []string{}, []string{}
 	nontrivial := false
 	for _, p := range pats {
@@ -496,6 +522,7 @@ func sandboxState(whitelist []core.BuildLabel, dirs []string) *core.BuildState {
 }
 
 func sandboxCase(c *lib.Ctx, state *core.BuildState, t sbxTarget) {
+	defer flush(false)
 	whitelist, dirs := state.Config.Sandbox.ExcludeableTargets, state.Config.Parse.ExperimentalDir
 	bt := core.NewBuildTarget(t.Label)
 	bt.IsFilegroup, bt.IsRemoteFile, bt.Sandbox = t.Filegroup, t.Remote, t.Sandbox
@@ -567,6 +594,7 @@ func docExperimental(dirs []string, l core.BuildLabel) bool {
 }
 
 func canSeeCase(c *lib.Ctx, state *core.BuildState, dirs []string, l, dep core.BuildLabel, vis []core.BuildLabel) {
+	defer flush(false)
 	dt := core.NewBuildTarget(dep)
 	dt.Visibility = vis
 	got := l.CanSee(state, dt)
@@ -603,6 +631,7 @@ func canSeeCase(c *lib.Ctx, state *core.BuildState, dirs []string, l, dep core.B
 // --- expansion of an original pseudo-target over a graph, with --exclude labels
 
 func expandCase(c *lib.Ctx, state *core.BuildState, tree []string, r *lib.Rng) {
+	defer flush(false)
 	state.Graph = core.NewGraph() // NewBuildState costs ~70 ms: one state, a fresh graph per case
 	graph := [][2]any{}
 	coqGraph := []string{}
@@ -694,11 +723,32 @@ func main() {
 		labels := map[core.BuildLabel]bool{}
 
 		// --- 1a. exhaustive strings
-		plen := c.Scale(2, 3)
+		// groups of prefix length 3 compared by digest (every string once), and again entry by entry for all strings up to
+		// length 4 (groups of prefix length 1).  The group cases are expensive for Coq, so they are interleaved with the
+		// cheap cases below to spread them over the case files.
+		const plen = 3
 		st := &enumStats{}
-		enumGroup(c, "", plen-1, "a/a", st, labels)
+		pending := []func(){enumGroup(c, "", plen-1, "a/a", false, st, labels)}
 		for _, p := range allStrings(plen) {
-			enumGroup(c, p, maxLen-plen, "a/a", st, labels)
+			pending = append(pending, enumGroup(c, p, maxLen-plen, "a/a", false, st, labels))
+		}
+		pending = append(pending, enumGroup(c, "", 0, "a/a", true, nil, labels))
+		for _, p := range allStrings(1) {
+			pending = append(pending, enumGroup(c, p, 3, "a/a", true, nil, labels))
+		}
+		ncheap := 0
+		flush = func(all bool) {
+			ncheap++
+			if (all || ncheap%8 == 0) && len(pending) > 0 {
+				n := 1
+				if all {
+					n = len(pending)
+				}
+				for _, f := range pending[:n] {
+					f()
+				}
+				pending = pending[n:]
+			}
 		}
 		c.Exhaustive(true)
 		c.Note("parse/print: exhaustive over all %d strings of length <= %d over %q: %d accepted, %d of them fail the round trip (known classes)", st.strings, maxLen, alphabet, st.accepted, st.failing)
@@ -742,6 +792,7 @@ func main() {
 		for _, l := range ls {
 			p := l.String()
 			c.Case(lib.App("CPrint", coqLabel(l), lib.Str(p)), map[string]any{"kind": "print", "label": js(l), "printed": p}, "print "+fmt.Sprintf("%q", l), l.Subrepo != "" || l.Name == "...")
+			flush(false)
 			pl := l.Parent()
 			c.Case(lib.App("CParent", coqLabel(l), coqLabel(pl)), map[string]any{"kind": "parent", "label": js(l), "parent": js(pl)}, "parent "+fmt.Sprintf("%q", l), pl != l)
 		}
@@ -813,5 +864,6 @@ func main() {
 
 			expandCase(c, expandState, tree, r)
 		}
+		flush(true)
 	})
 }
